@@ -789,3 +789,25 @@ M('c05-revert-path-rewrap', ['C05'], 'core.py',
   "        path = self.path if isinstance(self.path, Path) else Path(self.path)\n        path_part = path.values()[self.part_idx]",
   "        path_part = Path(self.path).values()[self.part_idx]",
   "revert of the repair: the access error re-wraps its S/A-rooted path")
+
+# --------------------------------------------------------------------------- from the generic-mutant survey
+M('c13-placed-flag-lost', ['C13'], 'core.py',
+  "                    _type_tree[new_type] = OrderedDict({cur_type: sub_tree})\n                registered = True",
+  "                    _type_tree[new_type] = OrderedDict({cur_type: sub_tree})\n                registered = False",
+  "after re-parenting a subclass the new type is filed again as an empty sibling (its subtree is lost)")
+M('c14-iterate-narrow', ['C14'], 'core.py',
+  "                children.extend(iterate(item))\n            except Exception:",
+  "                children.extend(iterate(item))\n            except ValueError:",
+  "a container whose iteration fails with another class aborts the wildcard")
+M('c01-first-op-index', ['C01'], 'core.py',
+  "        if fetch_till > 1 and t_path[1] in ('.', 'P'):",
+  "        if fetch_till > 1 and t_path[2] in ('.', 'P'):",
+  "the S / A prelude reads the first step's argument where its op code is")
+M('c18-stop-sign-test', ['C18'], 'core.py',
+  "                stop = (stop * 2) + 1 if stop >= 0 else (stop * 2) + len(cur_t_path)",
+  "                stop = (stop * 2) + 1 if stop >= 1 else (stop * 2) + len(cur_t_path)",
+  "a slice stop of 0 is scaled from the end")
+M('c04-debug-option-swapped', ['C04'], 'core.py',
+  "    glom_debug = kwargs.pop('glom_debug', GLOM_DEBUG)",
+  "    glom_debug = kwargs.pop(GLOM_DEBUG, 'glom_debug')",
+  "debug mode is always on: errors are never translated or traced")
